@@ -63,7 +63,7 @@ META = dict(
     bounds=dict(
         quick="18 configurations; autoflush on: 3-4 roots, autoflush off: the populated root; every history of <= 2 operations beyond the root, each followed by flush and by commit (+ merge alphabet on 6 configurations)",
         thorough="18 configurations x {autoflush on, off} x 3-5 roots, every history of <= 2 operations beyond the root; <= 3 operations after the populated "
-        "root (autoflush on: all configurations, off: 6 of them); each history followed by flush and by commit",
+        "root (autoflush on: 10 configurations, off: 3); each history followed by flush and by commit",
     ),
 )
 SHARD_TIMEOUT = dict(quick=600, thorough=3000)
@@ -118,7 +118,8 @@ def world_keys(tier):
     return ks
 
 
-DEEP_OFF = (("U1", SU), ("U1", ORPH), ("U3", ORPH), ("U2", ALL), ("U5", False, SU), ("U8", ALL))
+DEEP_ON = (("U1", SU), ("U1", ORPH), ("U7", ORPH), ("U3", ORPH), ("U2", ALL), ("U4", ORPH), ("U5", True, SU), ("U5", False, SU), ("U8", ALL), ("U1", ALL, True, True))
+DEEP_OFF = (("U1", ORPH), ("U7", SU), ("U2", ALL))
 MERGE_KINDS = ("merge", "add", "delete", "rel", "flush", "commit")
 
 
@@ -129,7 +130,7 @@ def configs(tier):
             for ri in range(len(ROOTS[wk[0]])):
                 if tier == "quick" and not af and ri != 1:
                     continue  # quick: autoflush-off replicas only from the populated root
-                deep = tier != "quick" and ri == 1 and (af or wk in DEEP_OFF)
+                deep = tier != "quick" and ri == 1 and ((af and wk in DEEP_ON) or (not af and wk in DEEP_OFF))
                 out.append(dict(world=wk, autoflush=af, root=ri, depth=3 if deep else 2, kinds=None))
     for wk in [("U1", SU), ("U1", ORPH), ("U2", ALL), ("U3", ALL), ("U7", ORPH), ("U4", SU)]:
         for af in (True, False):
@@ -173,7 +174,7 @@ def run_shard(shard, tier, rec):
     ow.explore_with_probes(rec, (h, m0, ("root", repr(shard))), enabled, step, shard["depth"])
 
 
-OWN = ("f7", "f8", "f9")
+OWN = ("f5", "f7", "f8", "f9")
 
 
 def step_checked(rec, w, shard, hist_, ms, op):
